@@ -884,6 +884,21 @@ ldb_lock_file(const char *filename, ldb_filelock_t **lock) {
 
   ldb_mutex_lock(&file_mutex);
 
+  /* A process's fcntl locks on a file are all dropped when it closes ANY
+     descriptor for that file. So if this process already holds the lock,
+     refuse before opening the file: opening and then closing it would
+     silently release the lock held by the other handle. */
+  if (stat(filename, &st) == 0) {
+    id.dev = st.st_dev;
+    id.ino = st.st_ino;
+
+    if (rb_set_has(&file_set, &id)) {
+      fd = -1;
+      errno = ENOLCK;
+      goto fail;
+    }
+  }
+
   fd = ldb_open(filename, O_RDWR | O_CREAT, 0644);
 
   if (fd < 0 || fstat(fd, &st) != 0)
